@@ -15,6 +15,7 @@ import (
 
 	"verif/harness/evid"
 	"verif/harness/hx"
+	"verif/harness/memnet"
 	"verif/harness/ref"
 	"verif/harness/simbmc"
 )
@@ -284,20 +285,48 @@ func TestCommandValueReuse(t *testing.T) {
 			setA, setB = func() { w.BMC.Data.Sensors[4] = a }, func() { w.BMC.Data.Sensors[4] = b }
 		}
 		ctx := context.Background()
+		// outside or inside a session; the later reply may carry the normal code
+		// and no body at all (some BMCs answer so)
+		var cn conn = w.T
+		if rapid.Bool().Draw(t, "inSession") {
+			c := hx.Creds{User: "admin", Password: []byte("pw"), Priv: 4, Suite: rapid.SampledFrom(hx.Suites12()).Draw(t, "suite")}
+			c.Install(w.BMC)
+			sess, err := w.T.NewV2Session(ctx, c.Opts())
+			if err != nil {
+				t.Fatalf("session: %v", err)
+			}
+			cn = sess
+		}
+		emptyLater := rapid.IntRange(0, 3).Draw(t, "laterReplyHasNoBody") == 0
 		setA()
-		if _, err := w.T.SendCommand(ctx, reused); err != nil {
+		if _, err := cn.SendCommand(ctx, reused); err != nil {
 			t.Fatalf("first call: %v", err)
 		}
 		setB()
-		if _, err := w.T.SendCommand(ctx, reused); err != nil {
-			t.Fatalf("second call: %v", err)
+		if emptyLater {
+			w.BMC.Intercept = func(b *simbmc.BMC, rx *simbmc.Rx) {
+				if rx.Msg != nil && !rx.Msg.IsResponse() && len(rx.Replies) == 1 {
+					rx.Replies = []memnet.Out{b.Wrap(rx.Sess, b.ResponseFor(rx.Msg, 0, nil).Bytes())}
+				}
+			}
 		}
-		if _, err := w.T.SendCommand(ctx, fresh); err != nil {
-			t.Fatalf("fresh call: %v", err)
-		}
+		_, errR := cn.SendCommand(ctx, reused)
+		_, errF := cn.SendCommand(ctx, fresh)
+		w.BMC.Intercept = nil
 		ev.Eval()
-		if dr, df := hx.Dump(reused.Response()), hx.Dump(fresh.Response()); dr != df {
-			t.Fatalf("%s: response in a reused command value differs from a fresh one\n reused: %s\n fresh:  %s", reused.Name(), dr, df)
+		if (errR == nil) != (errF == nil) {
+			t.Fatalf("%s (later reply without body: %v): the reused command value returned err=%v, a fresh one err=%v", reused.Name(), emptyLater, errR, errF)
+		}
+		if !emptyLater && errR != nil {
+			t.Fatalf("second call: %v", errR)
+		}
+		if errR == nil {
+			if dr, df := hx.Dump(reused.Response()), hx.Dump(fresh.Response()); dr != df {
+				t.Fatalf("%s: response in a reused command value differs from a fresh one\n reused: %s\n fresh:  %s", reused.Name(), dr, df)
+			}
+		}
+		if emptyLater {
+			ev.Label("command-reuse:later-reply-without-body")
 		}
 		ev.Label("command-reuse:" + reused.Name())
 		ev.NonTrivial(fmt.Sprintf("reuse|%d|%s", kind, hx.Dump(fresh.Response())))
@@ -409,6 +438,6 @@ func TestSessionPairs(t *testing.T) {
 }
 
 func TestCoverage(t *testing.T) {
-	ev.RequireLabels(t, 1, "pairs-complete", "session-pair:second-open-established", "session-pair:both-discover", "layer-branch-differs:GetDeviceIDRsp", "layer-branch-differs:GetSessionInfoRsp", "layer-branch-differs:GetChassisStatusRsp",
+	ev.RequireLabels(t, 1, "pairs-complete", "command-reuse:later-reply-without-body", "session-pair:second-open-established", "session-pair:both-discover", "layer-branch-differs:GetDeviceIDRsp", "layer-branch-differs:GetSessionInfoRsp", "layer-branch-differs:GetChassisStatusRsp",
 		"layer-branch-differs:OpenSessionRsp", "layer-branch-differs:RAKPMessage2", "layer-branch-differs:GetDCMISensorInfoRsp", "layer-branch-differs:DCMICaps", "wrapper:V1Session", "wrapper:V2Session", "wrapper:Message", "wrapper-after-rejected:V2Session")
 }
